@@ -214,16 +214,18 @@ def suspects(rep):
 
 
 def method_rules(repo, rep, ev):
+    neg_rules(repo, rep, ev)
+    add_rules(repo, rep, ev)
+    iers_rules(repo, rep, ev)
+
+
+def neg_rules(repo, rep, ev):
     cls = repo.cls('geodepy.constants', 'Transformation')
-    m = repo.module('geodepy.constants')
     T = ev.symbolic_object(cls, 'T')
-    # ---- __neg__
     neg = cls.methods.get('__neg__')
-    add = cls.methods.get('__add__')
-    if neg is None or add is None:
-        raise AnalysisError('anchor vanished: Transformation.__neg__/__add__')
+    if neg is None:
+        raise AnalysisError('anchor vanished: Transformation.__neg__')
     rep.analysed(neg)
-    rep.analysed(add)
     r = ev.call_function(neg, {neg.params[0].name: T})
     wn = where(neg, neg.node)
     base = 'R-WIRE::geodepy/constants.py::Transformation.__neg__::'
@@ -236,7 +238,16 @@ def method_rules(repo, rep, ev):
         check_equal(rep, 'R-WIRE', base + 'to_datum', wn, r.fields.get('to_datum'), T.fields['from_datum'], 'labels are swapped (to)')
         check_equal(rep, 'R-WIRE', base + 'ref_epoch', wn, r.fields.get('ref_epoch'), T.fields['ref_epoch'], 'reference epoch kept')
         check_equal(rep, 'R-WIRE', base + 'tf_sd', wn, r.fields.get('tf_sd'), T.fields['tf_sd'], 'uncertainties forwarded')
-    # ---- __add__
+
+
+def add_rules(repo, rep, ev):
+    cls = repo.cls('geodepy.constants', 'Transformation')
+    T = ev.symbolic_object(cls, 'T')
+    add = cls.methods.get('__add__')
+    if add is None:
+        raise AnalysisError('anchor vanished: Transformation.__add__')
+    rep.analysed(add)
+    ev.roundings[:] = []
     other = Rat.sym('epoch')
     r = ev.call_function(add, {add.params[0].name: T, add.params[1].name: other})
     wa = where(add, add.node)
@@ -268,7 +279,10 @@ def method_rules(repo, rep, ev):
     elif nround:
         rep.violated('R-ROUND', key, wa, 'propagated parameters are rounded to %s decimals: coarser than 1e-8' % sorted(set(nround)),
                      expected='>= 8 decimals', actual=str(sorted(set(nround))))
-    # ---- iers2trans
+
+
+def iers_rules(repo, rep, ev):
+    cls = repo.cls('geodepy.constants', 'Transformation')
     f = repo.func('geodepy.constants', 'iers2trans')
     rep.analysed(f)
     ev.roundings[:] = []
